@@ -11,6 +11,12 @@ def Rec.attrServerKey (lower : String → String) (r : Rec) : Except PyExc Strin
   | .srv _ _ _ s => .ok (lower s)
   | _ => .error .other
 
+/-- `record.alias_key` (an attribute of `DNSPointer` only) -/
+def Rec.attrAliasKey (lower : String → String) (r : Rec) : Except PyExc String :=
+  match r.rdata with
+  | .ptr a => .ok (lower a)
+  | _ => .error .other
+
 /-- `record.alias` (an attribute of `DNSPointer` only) -/
 def Rec.attrAlias (r : Rec) : Except PyExc String :=
   match r.rdata with
